@@ -119,6 +119,17 @@ func modelOf(rec Record) *mRec {
 var c01Long4k = "flags=" + strings.Repeat("-tags=x,", 600)
 var c01Long20k = strings.Repeat("0123456789abcdef", 1250)
 
+// c01ShortOnly: lanes that move every byte through one-byte pipes leave the long values out
+var c01ShortOnly bool
+
+func c01PickVal(T *sim.Tape, label string) string {
+	v := sim.Pick(T, c01Vals, label)
+	if c01ShortOnly && len(v) > 100 {
+		return "long"
+	}
+	return v
+}
+
 var c01Keys = []string{"a", "goos", "pkg", "k-1", "é", "ключ", "x/y", "a.b", "cpu", "b"}
 var c01Vals = []string{"1", "2", "linux", "darwin", "Intel(R) Core(TM) i7", "x  y", "v:1", "é世", "a\tb", "key: value", "Benchmark", "-", "0",
 	// trailing blanks and Unicode white space at either end belong to the value (only leading ASCII blanks/tabs separate it from the key)
@@ -325,7 +336,7 @@ func (h *c01Hist) step() bool {
 				continue
 			}
 			used[k] = true
-			res.Config = append(res.Config, Config{Key: k, Value: []byte(sim.Pick(T, c01Vals, "val")), File: T.Intn(4, "file") != 3})
+			res.Config = append(res.Config, Config{Key: k, Value: []byte(c01PickVal(T, "val")), File: T.Intn(4, "file") != 3})
 		}
 		h.prev = res
 		h.shadow = map[string]cfgEnt{}
@@ -350,7 +361,7 @@ func (h *c01Hist) step() bool {
 			k := sim.Pick(T, c01Keys, "ekey")
 			switch T.Intn(6, "edit") {
 			case 0:
-				v := sim.Pick(T, c01Vals, "eval")
+				v := c01PickVal(T, "eval")
 				res.SetConfig(k, v) // becomes/stays internal
 				h.shadow[k] = cfgEnt{v, false}
 				desc = append(desc, fmt.Sprintf("SetConfig(%q,%q)", k, v))
@@ -360,7 +371,7 @@ func (h *c01Hist) step() bool {
 				delete(h.shadow, k)
 				desc = append(desc, fmt.Sprintf("SetConfig(%q,\"\")", k))
 			case 2: // add or rewrite as file configuration
-				v := sim.Pick(T, c01Vals, "eval")
+				v := c01PickVal(T, "eval")
 				if idx, ok := res.ConfigIndex(k); ok {
 					res.Config[idx].Value = append(res.Config[idx].Value[:0], v...)
 					res.Config[idx].File = true
@@ -384,7 +395,7 @@ func (h *c01Hist) step() bool {
 				desc = append(desc, "newvals")
 			case 5: // change value in place, keep flag
 				if idx, ok := res.ConfigIndex(k); ok {
-					v := sim.Pick(T, c01Vals, "eval")
+					v := c01PickVal(T, "eval")
 					if T.Bool("inplace") {
 						res.Config[idx].Value = append(res.Config[idx].Value[:0], v...) // reuse the buffer, as Reader does
 					} else {
@@ -577,7 +588,7 @@ func c01LaneText(t *testing.T, r *sim.Run) {
 	w := NewWriter(sw)
 	var want []*mRec
 	for f := 0; f < nfiles; f++ {
-		text := genBenchText(T, genTextOpts{noTrailingCRValue: true})
+		text := genBenchText(T, genTextOpts{noTrailingCRValue: true, crcrlf: true})
 		r.Logf("input file %d: %s", f, quoteOut(text))
 		src := sim.NewSimReader(r, text)
 		src.MaxChunk = []int{0, 1, 3, 64}[T.Intn(4, "in-chunk")]
@@ -635,6 +646,8 @@ func c01LanePipeline(t *testing.T, r *sim.Run) {
 	var consumerErr error
 	stageSaw := 0
 	r.Bubble(t, 400000, func(s *sim.Sched) {
+		c01ShortOnly = true
+		defer func() { c01ShortOnly = false }()
 		p1 := sim.NewSimPipe(r, caps[T.Intn(len(caps), "cap1")])
 		p2 := sim.NewSimPipe(r, caps[T.Intn(len(caps), "cap2")])
 		s.Go("producer", 0, func() {
